@@ -145,7 +145,8 @@ func (f *SubscriptionFieldFilter) SkipEvent(ctx *Context, data []byte) (bool, er
 				}
 
 				if valueType != jsonparser.NotExist && expectedDataType != valueType {
-					return true, nil
+					// this value cannot match, the remaining ones still can
+					continue
 				}
 
 				// Short circuit if the types are the same we can compare the bytes directly
@@ -162,14 +163,16 @@ func (f *SubscriptionFieldFilter) SkipEvent(ctx *Context, data []byte) (bool, er
 				// Boolean: true -> JSON: "true"
 				// Number: 42 -> JSON: "42"
 				// Null: null -> JSON: "null"
+				// (quoted into a local: expected is compared again with the next value)
+				quoted := expected
 				if expectedDataType == jsonparser.String {
-					expected, err = json.Marshal(string(expected))
+					quoted, err = json.Marshal(string(expected))
 					if err != nil {
 						return true, err
 					}
 				}
 
-				if bytes.Equal(expected, actualRawBytes) {
+				if bytes.Equal(quoted, actualRawBytes) {
 					return false, nil
 				}
 
